@@ -22,7 +22,7 @@ OpOf(e) == IF e.t = "set" THEN SetOp(e.k, e.v) ELSE DelOp(e.k)
 TraceStep ==
     /\ l <= Len(Rec)
     /\ l' = l + 1
-    /\ UNCHANGED <<nops, hist>>
+    /\ UNCHANGED <<nops, hist, lastlog>>
     /\ \/ Ev.ev = "reset"   /\ base' = EmptyMap /\ stack' = <<>>
        \/ Ev.ev = "write"   /\ WriteCore(OpOf(Ev))
        \/ Ev.ev = "push"    /\ PushCore(Ev.via)
